@@ -44,7 +44,7 @@ ASSUMPTIONS = [
     "B's columns that A lacks are dropped, A's columns that B lacks are zero-filled (documented)",
     "sibling order / node order of the result is free (tags decide)",
 ]
-REQUIRED = ["operations_under_custom_column_names", "redirect_checked", "redirect_chained_checked", "cat_checked", "cat_merged",
+REQUIRED = ["trees_with_64_bit_labels", "operations_under_custom_column_names", "redirect_checked", "redirect_chained_checked", "cat_checked", "cat_merged",
             "cat_linked", "cat_translate", "cat_no_translate", "cat_flag_as_numpy_bool_or_int",
             "size_sweep_cases", "redirect_positional_arguments", "tap_redirect_tree", "tap_cat_tree"]
 FLOOR = {"quick": 2500, "thorough": 300000}
@@ -393,6 +393,9 @@ def _workload(ctx):
     for k in range(n_trees):
         rc = G.random_recipe(rng, max_n=G.size_ladder(ctx, k, 9, 30, 200),
                              extras=int(rng.integers(0, 3)))
+        if k % 4 == 1:
+            rc["big_extra"] = True
+            ctx.count("trees_with_64_bit_labels")
         n = G.spec_from_recipe(rc)["pid"].shape[0]
         nodes = range(n) if n <= 12 else sorted(set(rng.integers(0, n, 5).tolist()))
         for v in nodes:
